@@ -775,6 +775,15 @@ class C07(RunSpec):
             d["obj"]["q"] = 4.0
             d["sprout"]["far"] = min(b[1] - b[0] for b in d["box"]["bounds"]) * 0.02
             d["levels"][1]["lsc"] = {"k": "dontstop"}
+            if (idx // 10) % 2 and len(d["levels"]) == 3:
+                # ... with the level limit alone (no distance filter): up to four parents offer their best, short-lived leaves keep freeing
+                # two or three slots, so the cut regularly falls between candidates of different parents that tie
+                d["sprout"] = {"k": "custom", "gen": {"k": "best"}, "dfilters": [], "tfilters": [{"k": "levellimit", "n": 4}], "ll": 4}
+                d["levels"][2]["lsc"] = {"k": "user", "salt": idx, "num": 1, "den": 3}  # leaves stop at staggered (pseudo-random) times
+                d["levels"][0]["lsc"] = {"k": "dontstop"}
+                d["gsc"] = {"k": "melimit", "n": 20}
+                d["obj"]["q"] = [12.0, 40.0, 120.0][(idx // 20) % 3]  # (how often the cut falls between tied candidates of different parents is
+                # a statistic here - C07.level_limit_cut_and_kept_tied_... -, the direct filter checks of C10 construct that case)
         if idx % 10 == 3 and d.get("kind") == "tree" and not d.get("reuse"):
             d["gsc"] = {"k": "melimit", "n": 14}
             d["levels"][0]["lsc"] = {"k": "dontstop"}
